@@ -2259,6 +2259,12 @@ class AssignIndex(Elemwise):
         return self.value.divisions
 
 
+def _is_broadcast_operand(expr, op):
+    # Scalars, delayed objects and reductions that are broadcast along the
+    # columns have no rows that correspond to the rows of ``expr``
+    return is_broadcastable([o for o in expr.operands if isinstance(o, Expr)], op)
+
+
 class Head(Expr):
     """Take the first `n` rows of the first partition"""
 
@@ -2289,7 +2295,7 @@ class Head(Expr):
             operands = [
                 (
                     Head(op, self.n, self.operand("npartitions"))
-                    if isinstance(op, Expr) and not self.frame._broadcast_dep(op)
+                    if isinstance(op, Expr) and not _is_broadcast_operand(self.frame, op)
                     else op
                 )
                 for op in self.frame.operands
@@ -2402,7 +2408,7 @@ class Tail(Expr):
             operands = [
                 (
                     Tail(op, self.n)
-                    if isinstance(op, Expr) and not self.frame._broadcast_dep(op)
+                    if isinstance(op, Expr) and not _is_broadcast_operand(self.frame, op)
                     else op
                 )
                 for op in self.frame.operands
